@@ -217,3 +217,12 @@ PROPS["C22"] = dict(
     contracts=[], harness="harness.memo_native:C22", level="exploration", technique="bounded fault injection (single-byte mutations, truncations, random datagrams) on the real receive path -- stand-in",
     explanation=MEMO_NOTE + "every gram of valid signed and unsigned memos mutated (bit flips, byte substitutions, truncation, replacement) and delivered in and out of order, plus random "
                 "datagrams with valid and invalid codes: servicing must not raise and, when signatures are required, no memo differing from the sent one is delivered. Cryptographic soundness is assumed of pysodium.")
+
+PROPS["C23"] = dict(
+    contracts=[], harness="harness.durable_native:C23", level="exploration", technique="bounded model-based runtime check against FIFO / ordered-set models with a real LMDB store -- stand-in (the property is mostly about the store)",
+    explanation="Bounded stand-in: random sequences (<= 7) of push/pull/extend/update/remove/clear over 4 values with duplicates on durable Durq and Dusq, with store close + reopen and "
+                "resync of a FRESH queue object at random positions; after every operation the cache and the durable copy must equal the model.")
+PROPS["C24"] = dict(
+    contracts=[], harness="harness.durable_native:C24", level="exploration", technique="bounded model-based runtime check against dict-of-value / list / ordered-set models with a real LMDB store -- stand-in",
+    explanation="Bounded stand-in: random sequences (<= 9) of put/pin/add/get/pop/rem/cnt on Suber, IoSuber, IoSetSuber over adversarial key sets (prefixes of each other, keys containing the "
+                "separator, keys that look like another key's io-key); after every operation EVERY key of the set is read back and compared with the model (non-interference).")
